@@ -112,6 +112,13 @@ def e_incomparable():
                [Variant(I('X'), 'tuple', [Field(0, 'T', [])]), Variant(I('Y'), 'unit', [])])
     yield Item('enum', I('A'), tparam(), [], False, [dw(['PartialEq', 'PartialOrd']), Attr('dw', opt('incomparable'))],
                [Variant(I('X'), 'tuple', [Field(0, 'T', [])], [opt('incomparable')]), Variant(I('Y'), 'unit', [])])
+    # item-level `incomparable` on enums with 0..3 variants of every kind (the flag lives on the item, not on its variants:
+    # round 7, a seeded change lost it for single-variant enums)
+    for n in range(0, 4):
+        for combo in itertools.product(['full', 'unit', 'skipped', 'empty()'], repeat=n):
+            for traits in (['PartialEq'], ['PartialOrd', 'PartialEq']):
+                yield Item('enum', I('A'), tparam(), [], False, [dw(traits), Attr('dw', opt('incomparable'))],
+                           [variant(i, k) for i, k in enumerate(combo)])
     # option order inside one variant attribute
     for order in itertools.permutations(['skip_inner', 'incomparable', 'default']):
         yield Item('enum', I('A'), tparam(), [], False, [dw(['PartialEq', 'PartialOrd', 'Default', 'Debug'])],
@@ -573,33 +580,65 @@ def e_fieldopts():
     for several skip lists.  (Only the zeroize configurations accept `Zeroize(fqs)`: an option written *after* it must
     still be honoured there, for every trait of the skip group.)"""
     traits = ['Zeroize', 'Debug', 'PartialEq', 'PartialOrd', 'Hash', 'Clone']
+    # two type parameters, one of them bound: the attribute is not "what a plain derive could do" (`Error::use_case`), so
+    # the items are accepted (round 7: with `<T>` and `; T` every item of this enumerator was rejected for `Clone`)
+    T2 = [Param('ty', 'T', comma=True), Param('ty', 'U', comma=False)]
+    PHU = '::core::marker::PhantomData<U>'
     fqs = MList('Zeroize', [MPathM('fqs')])
     for g in (None, ['Debug'], ['EqHashOrd'], ['Hash'], ['Zeroize'], ['Debug', 'EqHashOrd'], ['Hash', 'Debug']):
         sk = skip_meta(g)
         for order in ([fqs, sk], [sk, fqs]):
             for split in (False, True):
                 bodies = [opt(m) for m in order] if split else [opt(*order)]
-                fs = [Field(0, 'T', []), Field(1, 'T', bodies), Field(2, 'u8', [])]
-                yield Item('struct', I('A'), tparam(), [], False, [dw(traits, gen_T())], [Variant(I('A'), 'tuple', fs)])
-                nfs = [Field(I('a'), 'T', []), Field(I('b'), 'T', bodies)]
-                yield Item('enum', I('A'), tparam(), [], False, [dw(traits, gen_T())],
+                fs = [Field(0, 'T', []), Field(1, 'T', bodies), Field(2, 'u8', []), Field(3, PHU, [])]
+                yield Item('struct', I('A'), T2, [], False, [dw(traits, gen_T())], [Variant(I('A'), 'tuple', fs)])
+                nfs = [Field(I('a'), 'T', []), Field(I('b'), 'T', bodies), Field(I('c'), PHU, [])]
+                yield Item('enum', I('A'), T2, [], False, [dw(traits, gen_T())],
                            [Variant(I('X'), 'named', nfs), Variant(I('Y'), 'unit', [])])
     # several skip lists on one field: every list counts, whichever comes last
     for gs in itertools.permutations(['Debug', 'EqHashOrd', 'Zeroize'], 2):
         for split in (False, True):
             ms = [skip_meta([g]) for g in gs]
             bodies = [opt(m) for m in ms] if split else [opt(*ms)]
-            fs = [Field(0, 'T', []), Field(1, 'T', bodies)]
-            yield Item('struct', I('A'), tparam(), [], False, [dw(traits, gen_T())], [Variant(I('A'), 'tuple', fs)])
-            yield Item('struct', I('A'), tparam(), [], False, [dw(traits[1:], gen_T())], [Variant(I('A'), 'tuple', fs)]) \
-                if 'Zeroize' not in gs else Item('struct', I('A'), tparam(), [], False, [dw(traits, gen_T())],
-                                                 [Variant(I('A'), 'named', [Field(I('a'), 'T', bodies), Field(I('b'), 'u8', [])])])
+            fs = [Field(0, 'T', []), Field(1, 'T', bodies), Field(2, PHU, [])]
+            yield Item('struct', I('A'), T2, [], False, [dw(traits, gen_T())], [Variant(I('A'), 'tuple', fs)])
+            yield Item('struct', I('A'), T2, [], False, [dw(traits[1:], gen_T())], [Variant(I('A'), 'tuple', fs)]) \
+                if 'Zeroize' not in gs else Item('struct', I('A'), T2, [], False, [dw(traits, gen_T())],
+                                                 [Variant(I('A'), 'named', [Field(I('a'), 'T', bodies), Field(I('b'), 'u8', []), Field(I('c'), PHU, [])])])
+
+
+def e_foreign():
+    """Attributes that are not the macro's own (`#[non_exhaustive]`, `#[must_use]`, doc, lints, `cfg_attr`) on the item, in
+    front of and behind the `derive_where` attribute, and on variants: the expansion must not depend on them (std's
+    derives ignore them; round 7: a seeded change made Debug print `..` for `#[non_exhaustive]` shapes)."""
+    T2 = [Param('ty', 'T', comma=True), Param('ty', 'U', comma=False)]
+    PHU = '::core::marker::PhantomData<U>'
+    traits = ['Clone', 'Debug', 'Default', 'Eq', 'Hash', 'Ord', 'PartialEq', 'PartialOrd']
+
+    def fields(shape):
+        if shape == 'unit':
+            return []
+        return [Field(I('a') if shape == 'named' else 0, 'T', []), Field(I('b') if shape == 'named' else 1, PHU, [])]
+    for fa in ('#[non_exhaustive]', '#[must_use]', '#[doc = "x"]', '#[allow(dead_code)]', '#[cfg_attr(all(), non_exhaustive)]'):
+        for pos in (0, 1):
+            for shape in ('named', 'tuple'):
+                attrs = [dw(traits, gen_T())]
+                attrs.insert(pos, Attr('other', src=fa))
+                yield Item('struct', I('A'), T2, [], False, attrs, [Variant(I('A'), shape, fields(shape))])
+                yield Item('enum', I('A'), T2, [], False, attrs,
+                           [Variant(I('X'), shape, fields(shape), [opt('default')]), Variant(I('Y'), 'unit', [])])
+        if 'must_use' in fa:
+            continue
+        for shape in ('named', 'tuple', 'unit'):
+            yield Item('enum', I('A'), T2, [], False, [dw(traits, gen_T())],
+                       [Variant(I('X'), shape, fields(shape), [opt('default')], None, fa + ' '),
+                        Variant(I('Y'), 'tuple', fields('tuple'), [], None, fa + ' ')])
 
 
 ENUMERATORS = {
     'skip': e_skip, 'incomparable': e_incomparable, 'discriminants': e_discriminants, 'default': e_default,
     'bounds': e_bounds, 'zeroize': e_zeroize, 'debug': e_debug, 'invalid': e_invalid, 'names': e_names,
-    'fieldopts': e_fieldopts,
+    'fieldopts': e_fieldopts, 'foreign': e_foreign,
 }
 
 
